@@ -10,10 +10,12 @@ META = dict(
 
 
 def harnesses(tier):
+    from contracts.movement import movement_harnesses
+    hs_m = movement_harnesses(tier)
     from contracts.linearfam import linear_harnesses
     hs_l = linear_harnesses(tier, modes=("forward",))
     from contracts.coupling import coupling_harnesses
     hs_c = coupling_harnesses({"C01"}, tier, modes=("forward",))
     from contracts.modules import transform_harness
     from contracts.elementwise import SPECS, FUNCTIONAL
-    return hs_l + hs_c + [transform_harness(SPECS[n], "forward", {"C01"}) for n in FUNCTIONAL]
+    return hs_m + hs_l + hs_c + [transform_harness(SPECS[n], "forward", {"C01"}) for n in FUNCTIONAL]
